@@ -88,7 +88,7 @@ struct Twin {
 }
 
 fn setup(clock: Arc<AtomicU64>, chain: &[Block]) -> NetNode {
-    let ncfg = NodeCfg { gp: 100, heartbeat: 100, social_stake: 0, loading_completed: true };
+    let ncfg = NodeCfg { gp: 100, heartbeat: 100, social_stake: 0, loading_completed: true, prune: 8 };
     let mut n = NetNode::new(0, ncfg, clock, 0, 4, MemIO::new());
     let _ = n.init();
     for b in chain {
@@ -263,7 +263,7 @@ pub fn run_case(case: &Case, prefix: &Built) -> (Vec<(String, String)>, Info) {
                 let via = format!("hostile_tx:{:?}", e);
                 let (tip_id, _) = n.tip();
                 let (spent, expired) = spent_and_expired(&builder, tip_id + 1);
-                let ectx = EditCtx { node: &builder, attacker: 3, victim: 2, for_block_id: tip_id + 1, ts: 7_000_000 + salt, spent: &spent, expired: &expired };
+                let ectx = EditCtx { node: &builder, attacker: 3, victim: 2, for_block_id: tip_id + 1, ts: 7_000_000 + salt, spent: &spent, expired: &expired, offchain: &[] };
                 if let Some(tx) = edited_tx(e, &ectx) {
                     call!(n, format!("step {step}"), via, true, n.net_event(NetworkEvent::IncomingNetworkMessage { peer_index: HOSTILE, buffer: Message::Transaction(tx).serialize() }));
                     pump_all!(n, via, true);
@@ -413,7 +413,7 @@ fn hostile_block(builder: &Node, tip_hash: SaitoHash, payload: Payload, salt: u6
     match payload {
         Payload::BadTx(e) => {
             let (spent, expired) = spent_and_expired(builder, tb.id + 1);
-            let ectx = EditCtx { node: builder, attacker: 3, victim: 2, for_block_id: tb.id + 1, ts, spent: &spent, expired: &expired };
+            let ectx = EditCtx { node: builder, attacker: 3, victim: 2, for_block_id: tb.id + 1, ts, spent: &spent, expired: &expired, offchain: &[] };
             let bad = edited_tx(TX_EDITS[e as usize % TX_EDITS.len()], &ectx)?;
             block_on(builder.make_block_as(&creator, tip_hash, ts, vec![bad], gt)).ok().map(|b| (b, true))
         }
@@ -498,7 +498,7 @@ pub fn arb_ev() -> impl Strategy<Value = Ev> {
 }
 
 pub fn prefix() -> Built {
-    let ncfg = NodeCfg { gp: 100, heartbeat: 100, social_stake: 0, loading_completed: true };
+    let ncfg = NodeCfg { gp: 100, heartbeat: 100, social_stake: 0, loading_completed: true, prune: 8 };
     let blocks = (0..6)
         .map(|i| BlockSpec {
             parent: None,
